@@ -242,7 +242,7 @@ type ConcCtx struct {
 }
 
 func newConc(e *Exec) *ConcCtx {
-	return &ConcCtx{e: e, chans: map[int]*chanInfo{}, inits: map[string]*Term{}, sorts: map[string]Sort{}, named: map[string]*Event{}, place: map[string]*Term{}, maxThreads: 24, doneChains: map[int][]int{}, selectAlts: map[int][]*Event{}}
+	return &ConcCtx{e: e, chans: map[int]*chanInfo{}, inits: map[string]*Term{}, sorts: map[string]Sort{}, named: map[string]*Event{}, place: map[string]*Term{}, maxThreads: 40, doneChains: map[int][]int{}, selectAlts: map[int][]*Event{}}
 }
 
 func locKey(p Ptr) string { return fmt.Sprintf("%d%s", p.Obj, p.Path) }
@@ -1884,7 +1884,20 @@ func (c *ConcCtx) buildPrefix(e *Exec) {
 					held = append(held, And(conj...))
 				}
 			}
-			return Not(Or(held...))
+			free := Not(Or(held...))
+			if ev.Kind == "rlock" {
+				// sync.RWMutex prefers writers: once a writer waits in Lock, new readers block - also a reader that
+				// already holds a read lock (recursive read locking deadlocks against a pending writer). A writer
+				// whose next step is Lock is (or will be) waiting in the final state of the prefix.
+				var pending []*Term
+				for _, w := range evs {
+					if w.Kind == "lock" && w.Thread != ev.Thread {
+						pending = append(pending, And(w.Guard, prevDone[w.ID], Not(x(w))))
+					}
+				}
+				free = And(free, Not(Or(pending...)))
+			}
+			return free
 		case "condwake":
 			var opts []*Term
 			for _, b := range evs {
